@@ -199,6 +199,23 @@ def _table() -> dict[str, dict[str, Any]]:
             add(f"dot_general_contract_l{lc}_r{rc}_square", (lambda lc, rc: lambda a, b: lax.dot_general(a, b, dn(lc, rc)))(lc, rc), {"square_3x3": [A33, B33]})
     add("dot_general_contract_l0_r0_nonsquare", lambda a, b: lax.dot_general(a, b, dn(0, 0)), {"2x3_2x4": [A23, B24]})
     add("dot_general_batch", lambda a, b: lax.dot_general(a, b, (((2,), (1,)), ((0,), (0,)))), {"batch": [x3, np.transpose(x3, (0, 2, 1)).copy()]})
+    # attention configurations with distinct query / key lengths, head counts and feature sizes
+    def _qkv(T, S, N=2, H=4, K=None, B=2, seed=5):
+        r = np.random.default_rng(seed)
+        K = K or N
+        return [r.standard_normal((B, T, N, H)).astype(F32) * 0.7, r.standard_normal((B, S, K, H)).astype(F32) * 0.7, r.standard_normal((B, S, K, H)).astype(F32)]
+
+    for T_, S_ in ((3, 5), (5, 3), (1, 6), (4, 4)):
+        add(f"attention_causal_T{T_}_S{S_}", lambda q, k, v: jax.nn.dot_product_attention(q, k, v, is_causal=True), {"qkv": _qkv(T_, S_)})
+        add(f"attention_plain_T{T_}_S{S_}", lambda q, k, v: jax.nn.dot_product_attention(q, k, v), {"qkv": _qkv(T_, S_)})
+        add(f"attention_scaled_T{T_}_S{S_}", lambda q, k, v: jax.nn.dot_product_attention(q, k, v, scale=0.37), {"qkv": _qkv(T_, S_)})
+    _m = (np.arange(3 * 5).reshape(3, 5) % 3 != 1)
+    add("attention_bool_mask_T3_S5", lambda q, k, v: jax.nn.dot_product_attention(q, k, v, mask=jnp.asarray(_m)[None, None]), {"qkv": _qkv(3, 5)})
+    add("attention_bias_T3_S5", lambda q, k, v: jax.nn.dot_product_attention(q, k, v, bias=jnp.asarray(np.linspace(-1, 1, 15, dtype=F32).reshape(1, 1, 3, 5))), {"qkv": _qkv(3, 5)})
+    add("attention_grouped_query_T3_S5", lambda q, k, v: jax.nn.dot_product_attention(q, k, v), {"qkv": _qkv(3, 5, N=4, K=2)})
+    add("attention_causal_and_mask_T4_S6", lambda q, k, v: jax.nn.dot_product_attention(q, k, v, is_causal=True, mask=jnp.asarray((np.arange(24).reshape(4, 6) % 5 != 2))[None, None]), {"qkv": _qkv(4, 6)})
+    add("attention_seq_lengths_T3_S5", lambda q, k, v: jax.nn.dot_product_attention(q, k, v, query_seq_lengths=jnp.array([2, 3]), key_value_seq_lengths=jnp.array([4, 2])), {"qkv": _qkv(3, 5)})
+    add("attention_local_window_T4_S4", lambda q, k, v: jax.nn.dot_product_attention(q, k, v, local_window_size=(1, 1)), {"qkv": _qkv(4, 4)})
     # batched contractions with the batch / contracting axes in every position (distinct extents B=2, M=5, K=3, N=7)
     import itertools as _it
 
